@@ -122,6 +122,7 @@ func Catalogue() []Prog {
 	add("template-vars", S, `<template :lk_tmpl="n + 1"><p>{{ lk_tmpl }}</p></template><p>after</p>`, nil, nil, false)
 	add("bracket-attrs", S, `<p [v-if]="keep" [:k]="raw" [@click]="go()">x</p>`, nil, nil, false)
 
+	add("file-vhtml", F, `<div v-html="html"></div><template v-html="html"></template><p v-text="title"></p><template :tv="title"><i>{{ tv }}</i></template><b :title="user.name">{{ n }}</b>`, nil, nil, false)
 	add("include", F, `<main><template include="@D/c.vuego" :lk_prop="n" label="L {{ title }}"></template><template include="@D/c.vuego" :lk_prop="f" label="second"></template></main>`,
 		map[string]string{"c.vuego": "---\nlk_fm: fm-value\n---\n<section><h2>{{ label }}</h2><p>{{ lk_prop }} {{ lk_fm }} {{ title }}</p></section>"}, nil, false)
 	add("include-nested", F, `<template include="@D/outer.vuego" :x="n"></template>`,
@@ -146,6 +147,12 @@ func Catalogue() []Prog {
 	add("full-document", F, "<!DOCTYPE html>\n<html lang=\"en\"><head><meta charset=\"utf-8\"><title>{{ title }}</title></head><body class=\"b\"><p v-if=\"show\">{{ user.name }}</p></body></html>", nil, nil, false)
 	add("file-filter", F, `<pre v-html="file('@D/inc.txt')"></pre><p>{{ incpath | file }}</p>`, map[string]string{"inc.txt": "included <text> & more"}, map[string]TV{"incpath": tvS("@D/inc.txt")}, false)
 
+	// the same expression texts over differently typed data (anything cached per expression text must not depend on the first data seen)
+	retype := `<p>{{ rv == rw }}|{{ rv != 1 }}|{{ rv == 'a' }}|{{ ro.f == rw }}</p><i v-if="rv == rw">eq</i><b :data-v="rv == rw ? 'y' : 'n'">k</b><u v-for="x in rmixed">{{ x == 1 }},</u>`
+	add("retype-int", S, retype, nil, map[string]TV{"rv": tvI(1), "rw": tvI(1), "ro": tvMap(map[string]TV{"f": tvI(1)}), "rmixed": tvList(tvI(1), tvS("a"), tvF(2.5), tvB(true))}, false)
+	add("retype-string", S, retype, nil, map[string]TV{"rv": tvS("a"), "rw": tvS("a"), "ro": tvMap(map[string]TV{"f": tvS("a")}), "rmixed": tvList(tvS("1"), tvI(1), tvNil())}, false)
+	add("retype-mixed", S, retype, nil, map[string]TV{"rv": tvI(1), "rw": tvS("1"), "ro": tvMap(map[string]TV{"f": tvF(1)}), "rmixed": tvList(tvB(false), tvI(1))}, false)
+
 	// failing programs
 	add("err-unknown-filter", S, `<p>{{ title | nosuchfilter }}</p>`, nil, nil, true)
 	add("err-filter-error", S, `<p>ok {{ title | upper }}</p><p>{{ bad | failif }}</p>`, nil, map[string]TV{"bad": tvS("boom")}, true)
@@ -158,6 +165,45 @@ func Catalogue() []Prog {
 	add("err-in-component-mid-text", F, `<template include="@D/c.vuego"></template>`, map[string]string{"c.vuego": `<p>Owner {{ user.name }} then {{ nope | nosuchfilter }}</p>`}, nil, true)
 	add("err-late-in-loop", S, `<ul><li v-for="lk_it in items">{{ lk_it.name | failif }}</li><li>{{ bad | failif }}</li></ul>`, nil, map[string]TV{"bad": tvS("boom")}, true)
 	return out
+}
+
+// Variant returns the program's data with every string leaf and number changed
+// in a way that depends on v (v == 0: the data as catalogued), so that the same
+// cached templates are rendered with different data on one engine.
+func (p *Prog) Variant(v int) any {
+	d := p.Data.Go()
+	if v == 0 {
+		return d
+	}
+	return catVary(d, v, "")
+}
+
+func catVary(x any, v int, key string) any {
+	switch t := x.(type) {
+	case map[string]any:
+		out := make(map[string]any, len(t))
+		for k, e := range t {
+			out[k] = catVary(e, v, k)
+		}
+		return out
+	case []any:
+		out := make([]any, len(t))
+		for i, e := range t {
+			out[i] = catVary(e, v, key)
+		}
+		return out
+	case string:
+		if key == "incpath" || key == "bad" || key == "cls" || key == "color" {
+			return t // paths, the failure trigger and css tokens keep their meaning
+		}
+		return fmt.Sprintf("%s~v%d", t, v)
+	case int:
+		if key == "n" {
+			return t // conditions in the catalogue compare n with literals
+		}
+		return t + v
+	}
+	return x
 }
 
 // CatFS builds the shared filesystem of a list of programs.
